@@ -184,6 +184,26 @@ pub fn gen_c02(rng: &mut Rng, caseid: u64, unix: bool, bound_ms: u64) -> Gen {
     for i in 0..n {
         let mut a = gen::valid_head(rng, 64);
         dedup_connection(&mut a);
+        // a sixth of the targets are not in origin-form (RFC 7230 5.3: absolute-form as a proxy
+        // client sends it, authority-form, asterisk-form, or no recognisable form at all): the
+        // target is delivered as sent whatever it looks like
+        if rng.chance(1, 6) {
+            let path = a.target.clone();
+            a.target = match rng.below(9) {
+                0 => format!("http://example.com{}", path),
+                1 => format!("HTTP://Example.COM:8080{}", path),
+                2 => "http://h".to_string(),
+                3 => format!("https://example.com{}", path),
+                4 => "*".to_string(),
+                5 => "example.com:443".to_string(),
+                6 => format!("hTtP://[::1]:80{}", path),
+                7 => format!("http:///{}", path),
+                _ => {
+                    let tl = rng.range(1, 40);
+                    gen::vchars(rng, tl)
+                }
+            };
+        }
         // an eighth of the heads repeat the Connection field (only the first line decides about
         // persistence, in the library and in the reference alike): both lines must be delivered
         if rng.chance(1, 8) {
@@ -276,7 +296,8 @@ fn case_name(rng: &mut Rng, s: &str) -> String {
 pub fn gen_c03(rng: &mut Rng, caseid: u64, unix: bool, bound_ms: u64) -> Gen {
     let mut p = Pipe::new();
     let kind = rng.below(10);
-    let mut a = AbsReq::new(rng.pick_s(&["POST", "PUT", "PATCH", "GET"]), &format!("/v/{:x}/0", caseid & 0xffff_ffff), (1, 1)).h("Host", " h");
+    let mut a = AbsReq::new(rng.pick_s(&["POST", "PUT", "PATCH", "GET", "HEAD", "TRACE", "DELETE", "OPTIONS", "XBODY"]), &format!("/v/{:x}/0", caseid & 0xffff_ffff), (1, 1)).h("Host", " h");
+    // (framing does not depend on the method: a HEAD or TRACE request that declares a body has one)
     let kind_label;
     let len;
     let wire_body: Vec<u8>;
@@ -412,7 +433,8 @@ pub fn gen_c09(rng: &mut Rng, caseid: u64, unix: bool, bound_ms: u64) -> Gen {
     let (wire_body, kind) = if chunked {
         let mc = *rng.pick(&[1usize, 16, 300, 5000]);
         let ch = gen::gen_chunking(rng, len, mc);
-        a.add("Transfer-Encoding", " chunked");
+        // coding names are case-insensitive (RFC 7230 4), and so is the field name
+        a.add(&case_name(rng, "Transfer-Encoding"), rng.pick_s(&[" chunked", " chunked", " Chunked", " CHUNKED", "chunked", " cHuNkEd "]));
         (gen::encode_chunked(&designated, &ch), "chunked")
     } else {
         a.add("Content-Length", &format!(" {}", len));
@@ -630,6 +652,9 @@ pub fn gen_c10(rng: &mut Rng, caseid: u64, unix: bool, bound_ms: u64) -> Gen {
 const CONN_VALUES: &[&str] = &[
     "", "close", "Close", "CLOSE", "keep-alive", "Keep-Alive", "upgrade", "Upgrade", "x-foo", "keep-alive, x-foo",
     "x-foo, close", "x-foo, keep-alive", "TE", "x-foo, Upgrade", "te, close",
+    // an HTTP/1.1 value that names close or upgrade ends the connection whatever else it names
+    // (on HTTP/1.0 these are replaced below: the two clauses of the statement disagree there)
+    "keep-alive, close", "close, keep-alive", "Keep-Alive, Upgrade", "upgrade, keep-alive", "Keep-Alive, CLOSE",
 ];
 
 pub fn gen_c12(rng: &mut Rng, caseid: u64, unix: bool, bound_ms: u64) -> Gen {
@@ -914,7 +939,9 @@ pub fn gen_c18(rng: &mut Rng, caseid: u64, unix: bool, bound_ms: u64) -> Gen {
     let k = p.exp_delivered.len();
     // a fifth of the (non-chunked) requests say HTTP/1.0: the statement makes no difference
     let v10 = !chunked && rng.chance(1, 5);
-    let mut a = AbsReq::new("POST", &format!("/v/{:x}/{}", cid, p.reqs.len()), if v10 { (1, 0) } else { (1, 1) }).h("Host", " h");
+    // the statement does not mention the method: half of the requests are not POST
+    let method = if rng.chance(1, 2) { "POST" } else { rng.pick_s(&["PUT", "GET", "HEAD", "DELETE", "TRACE", "OPTIONS", "XEXP", "PATCH"]) };
+    let mut a = AbsReq::new(method, &format!("/v/{:x}/{}", cid, p.reqs.len()), if v10 { (1, 0) } else { (1, 1) }).h("Host", " h");
     let wire_body = if chunked {
         a.add("Transfer-Encoding", " chunked");
         gen::encode_chunked(&body, &gen::gen_chunking(rng, len, 700))
